@@ -77,6 +77,9 @@ type DocConfig struct {
 	// 255..300 or 600 objects (index field width).
 	PadBytes   int
 	WideObjStm bool
+	// ManyObjects > 0 adds that many small objects of irregular size (Put), so
+	// that the cross-reference data itself becomes large.
+	ManyObjects int
 	// EndstreamBodies makes every stream body a long text with lines that start with "endstream".
 	EndstreamBodies bool
 	// WithMetadata adds an XMP metadata stream to the catalog (needs version >= 1.4);
@@ -477,6 +480,26 @@ func BuildDoc(r *kit.Rand, cfg DocConfig) (*Doc, error) {
 		}
 		record(&WObj{Ref: ref, Value: pdf.Dict{"N": pdf.Integer(-1)}, IsStream: true, Body: body})
 		d.Ops = append(d.Ops, fmt.Sprintf("Pad(%d)", cfg.PadBytes))
+	}
+	for i := 0; i < cfg.ManyObjects; i++ {
+		ref := alloc()
+		var obj pdf.Object
+		switch r.Intn(3) {
+		case 0:
+			obj = g.Scalar()
+		case 1:
+			obj = pdf.Array{pdf.Integer(i), g.Scalar()}
+		default:
+			obj = pdf.Dict{"I": pdf.Integer(i), "S": pdf.String(r.BytesFrom(Sigma, r.Intn(40)))}
+		}
+		snap := Clone(obj)
+		if err := w.Put(ref, obj); err != nil {
+			return d, fmt.Errorf("%s: Put(%s): %w", cfg.String(), ref, err)
+		}
+		record(&WObj{Ref: ref, Value: snap})
+	}
+	if cfg.ManyObjects > 0 {
+		d.Ops = append(d.Ops, fmt.Sprintf("Put*%d", cfg.ManyObjects))
 	}
 	wideDone := !cfg.WideObjStm
 	nops := cfg.MaxOps
